@@ -95,6 +95,57 @@ def fold_stream_adt(ctx, bs):
     ctx.count('stream_adt_cases_folded', n_cases)
     return (bad is None, bad or 'folded over %d histories of byte windows' % n_cases)
 
+
+def check_short_reads(ctx, rule='C12.R7', tail=''):
+    """short reads of primitive values are detected (shared with C19: the client decodes responses with the same primitives)"""
+    ctx.rule(rule, 'in the primitive decoders every stream.read(n) result is checked for shortness: it is unpacked by struct (exact size), indexed ([0] on a one-byte read), or its len() is compared in a test that raises; otherwise a truncated or over-long length field decodes into a value shorter than its length field says (BytearrayStream.read clips silently)')
+    PRIM = 'kmip/core/primitives.py'
+    pt = ctx.src.tree(PRIM)
+    n_reads = 0
+    for qn, fn, cls in all_functions(pt):
+        ps = [a.arg for a in fn.args.args]
+        streams = set(x for x in ps if x in ('istream', 'stream', 'input_stream', 'input_buffer'))
+        if not streams or cls is None:
+            continue
+        for c in walk_local(fn):
+            if not (isinstance(c, ast.Call) and isinstance(c.func, ast.Attribute) and c.func.attr == 'read' and isinstance(c.func.value, ast.Name) and c.func.value.id in streams and c.args):
+                continue
+            n_reads += 1
+            site = '%s:%s %s' % (PRIM, c.lineno, qn)
+            par = c._parent
+            how = None
+            # walk outwards through bytes()/slices/concatenation to the consumer
+            cur = c
+            while True:
+                par = cur._parent
+                if isinstance(par, ast.Call) and (call_name(par) or '').split('.')[-1] == 'unpack' and cur in par.args:
+                    how = 'unpacked'
+                    break
+                if isinstance(par, ast.Subscript) and par.value is cur and not isinstance(par.slice, ast.Slice):
+                    how = 'indexed'
+                    break
+                if isinstance(par, ast.BinOp) or (isinstance(par, ast.Subscript) and par.value is cur) or (isinstance(par, ast.Call) and call_name(par) in ('bytes', 'bytearray') and cur in par.args):
+                    cur = par
+                    continue
+                break
+            if how is None and isinstance(par, ast.Assign) and len(par.targets) == 1 and isinstance(par.targets[0], ast.Name):
+                v = par.targets[0].id
+                for x in walk_local(fn):
+                    if isinstance(x, ast.Call) and (call_name(x) or '').split('.')[-1] == 'unpack' and any(isinstance(y, ast.Name) and y.id == v for a in x.args for y in ast.walk(a)):
+                        how = 'unpacked via %s' % v
+                    if isinstance(x, ast.Call) and call_name(x) == 'len' and x.args and isinstance(x.args[0], ast.Name) and x.args[0].id == v:
+                        # len(v) itself compared, or assigned to a name that is compared, in an if that raises
+                        names = {None}
+                        if isinstance(x._parent, ast.Assign) and isinstance(x._parent.targets[0], ast.Name):
+                            names = {x._parent.targets[0].id}
+                        for iff in walk_local(fn):
+                            if isinstance(iff, ast.If) and any(isinstance(r, ast.Raise) for r in iff.body) and (
+                                    any(y is x for y in ast.walk(iff.test)) or any(isinstance(y, ast.Name) and y.id in names for y in ast.walk(iff.test))):
+                                how = 'length of %s checked' % v
+            ctx.check(how is not None, rule, '%s|read(%s)' % (qn, U(c.args[0])), site, 'short read detected: %s' % how,
+                      'the result of %s is used without any check of its size: BytearrayStream.read returns fewer bytes than asked for when the length field overruns the data, so the value decodes shorter than its declared length instead of the request being refused' % U(c) + tail)
+    ctx.count('primitive_stream_reads', n_reads, 15)
+
 def run(ctx):
     src = ctx.src
     st = src.tree(SESSION)
@@ -517,54 +568,7 @@ def run(ctx):
         ctx.need(verdict[0], 'unrecognised construct: BytearrayStream can neither be folded over byte windows nor matched')
     ctx.check(verdict[0], 'C12.R6', 'BytearrayStream.read|slice-and-advance', usite, 'read(n) returns the first min(n, available) unread bytes and leaves exactly the rest, in order, for buffer / length / the next read / write (%s)' % verdict[1],
               'BytearrayStream.read does not return the first n bytes and advance by n: %s' % verdict[1])
-    # ---------------- R7 short reads of primitive values are detected
-    ctx.rule('C12.R7', 'in the primitive decoders every stream.read(n) result is checked for shortness: it is unpacked by struct (exact size), indexed ([0] on a one-byte read), or its len() is compared in a test that raises; otherwise a truncated or over-long length field decodes into a value shorter than its length field says (BytearrayStream.read clips silently)')
-    PRIM = 'kmip/core/primitives.py'
-    pt = src.tree(PRIM)
-    n_reads = 0
-    for qn, fn, cls in all_functions(pt):
-        ps = [a.arg for a in fn.args.args]
-        streams = set(x for x in ps if x in ('istream', 'stream', 'input_stream', 'input_buffer'))
-        if not streams or cls is None:
-            continue
-        for c in walk_local(fn):
-            if not (isinstance(c, ast.Call) and isinstance(c.func, ast.Attribute) and c.func.attr == 'read' and isinstance(c.func.value, ast.Name) and c.func.value.id in streams and c.args):
-                continue
-            n_reads += 1
-            site = '%s:%s %s' % (PRIM, c.lineno, qn)
-            par = c._parent
-            how = None
-            # walk outwards through bytes()/slices/concatenation to the consumer
-            cur = c
-            while True:
-                par = cur._parent
-                if isinstance(par, ast.Call) and (call_name(par) or '').split('.')[-1] == 'unpack' and cur in par.args:
-                    how = 'unpacked'
-                    break
-                if isinstance(par, ast.Subscript) and par.value is cur and not isinstance(par.slice, ast.Slice):
-                    how = 'indexed'
-                    break
-                if isinstance(par, ast.BinOp) or (isinstance(par, ast.Subscript) and par.value is cur) or (isinstance(par, ast.Call) and call_name(par) in ('bytes', 'bytearray') and cur in par.args):
-                    cur = par
-                    continue
-                break
-            if how is None and isinstance(par, ast.Assign) and len(par.targets) == 1 and isinstance(par.targets[0], ast.Name):
-                v = par.targets[0].id
-                for x in walk_local(fn):
-                    if isinstance(x, ast.Call) and (call_name(x) or '').split('.')[-1] == 'unpack' and any(isinstance(y, ast.Name) and y.id == v for a in x.args for y in ast.walk(a)):
-                        how = 'unpacked via %s' % v
-                    if isinstance(x, ast.Call) and call_name(x) == 'len' and x.args and isinstance(x.args[0], ast.Name) and x.args[0].id == v:
-                        # len(v) itself compared, or assigned to a name that is compared, in an if that raises
-                        names = {None}
-                        if isinstance(x._parent, ast.Assign) and isinstance(x._parent.targets[0], ast.Name):
-                            names = {x._parent.targets[0].id}
-                        for iff in walk_local(fn):
-                            if isinstance(iff, ast.If) and any(isinstance(r, ast.Raise) for r in iff.body) and (
-                                    any(y is x for y in ast.walk(iff.test)) or any(isinstance(y, ast.Name) and y.id in names for y in ast.walk(iff.test))):
-                                how = 'length of %s checked' % v
-            ctx.check(how is not None, 'C12.R7', '%s|read(%s)' % (qn, U(c.args[0])), site, 'short read detected: %s' % how,
-                      'the result of %s is used without any check of its size: BytearrayStream.read returns fewer bytes than asked for when the length field overruns the data, so the value decodes shorter than its declared length instead of the request being refused' % U(c))
-    ctx.count('primitive_stream_reads', n_reads, 15)
+    check_short_reads(ctx, 'C12.R7')
     # ---------------- R9 what the server decodes and echoes encodes to well-formed TTLV again
     ctx.rule('C12.R9', 'values decoded from a request and echoed into the response (the unique batch item ID above all) encode to well-formed TTLV again: the padding count a decoded TextString/ByteString keeps is in 0..7 for every length (lifted from C01.R3 padding-arithmetic)')
     from ..report import Ctx as _Ctx
